@@ -15,3 +15,4 @@ import LyModel.Props.C07
 #print axioms LyModel.Props.C07.implicit_exact_choice
 #print axioms LyModel.Props.C07.implicit_exact_choice_F180_fails
 #print axioms LyModel.Props.C07.autodel_case_exact
+#print axioms LyModel.Props.C07.validate_normal_form
